@@ -107,7 +107,7 @@ def _fresh_pre(c):
     return {'g': {l: {'t': 'INPUT', 'o': []} for l in c.inputs}, 'ord': list(c.inputs), 'i': list(c.inputs), 'o': [], 'u': {}, 'b': {}}
 
 
-def record(src):
+def _record(src):
     from cirbo.synthesis.generation import arithmetics as ar
     from cirbo.synthesis.generation import generation as gg
 
@@ -282,3 +282,6 @@ def record(src):
 
 nontrivial = A.nontrivial
 features = A.features
+
+
+record = A.with_decoys(_record)
